@@ -306,6 +306,40 @@ def eq_is_conjunction(prog: Program, res, rule: str, ci: ClassInfo, eq) -> None:
             if any(v_ is True for _p, v_ in consts) and ci.name != "":
                 res.violation(rule, eq, eq.node, f"{ci.name}.__eq__ returns constants without comparing any component of the two operands: all objects of the type compare equal", key_extra="eq-compares-nothing")
                 return
+    if eq.name == "__eq__" and len(eq.param_names()) >= 2:
+        # like is compared with like: a comparison whose operands are one-sided (one reads the object, the other the other
+        # operand) reads the SAME component on both sides
+        me_, ot_ = eq.param_names()[:2]
+
+        def comp_of(e) -> tuple[set, set]:
+            a_, b_ = set(), set()
+            for y in ast.walk(e):
+                if isinstance(y, ast.Attribute) and isinstance(y.value, ast.Name) and y.value.id in (me_, ot_):
+                    (a_ if y.value.id == me_ else b_).add(y.attr)
+            return a_, b_
+
+        def one_sided(e) -> bool:
+            ns = {y.id for y in ast.walk(e) if isinstance(y, ast.Name)} & {me_, ot_}
+            return len(ns) <= 1
+
+        seen_txt = set()
+        for p in paths:
+            exprs_ = [t for t, _pol in p.literals()] + ([p.value] if p.outcome == "return" and p.value is not None else [])
+            for e in exprs_:
+                for x in ast.walk(e):
+                    # structural equality is exact: a comparison within a tolerance makes `==` — and every compatibility
+                    # check, cache key and membership test built on it — accept operands that differ
+                    if isinstance(x, ast.Call) and (dotted(x.func) or "").split(".")[-1] in ("allclose", "isclose", "approx", "assert_allclose") and not one_sided(x) and "tolerant" not in seen_txt:
+                        seen_txt.add("tolerant")
+                        res.violation(rule, eq, p.node or eq.node, f"{ci.name}.__eq__ compares within a tolerance (`{unparse(x)[:60]}`): objects that differ compare equal, so operands with (slightly) different binning / data pass the compatibility checks and are combined, and equality is no longer transitive", key_extra="eq-tolerant")
+                    ops = [x.left, *x.comparators] if isinstance(x, ast.Compare) and all(isinstance(o, (ast.Eq, ast.NotEq)) for o in x.ops) else list(x.args) if isinstance(x, ast.Call) and len(x.args) == 2 and not x.keywords and (dotted(x.func) or "").split(".")[-1] in ("array_equal", "allclose", "array_equiv", "isclose", "eq") else None
+                    if not ops or len(ops) != 2 or not all(one_sided(o) for o in ops):
+                        continue
+                    (a0, b0), (a1, b1) = comp_of(ops[0]), comp_of(ops[1])
+                    mine, theirs = a0 | a1, b0 | b1
+                    if mine and theirs and len(mine) == 1 and len(theirs) == 1 and mine != theirs and unparse(x) not in seen_txt:
+                        seen_txt.add(unparse(x))
+                        res.violation(rule, eq, p.node or eq.node, f"{ci.name}.__eq__ compares `{me_}.{sorted(mine)[0]}` with `{ot_}.{sorted(theirs)[0]}` (`{unparse(x)[:70]}`): two identical objects whose components differ from each other compare unequal, and objects that differ in that component can compare equal", key_extra=f"eq-compares-unlike-{sorted(mine)[0]}")
     for p in paths:
         if p.outcome != "return" or p.value is None:
             continue
